@@ -17,6 +17,7 @@ import PgProofs.EvoOrderPerm
 import PgProofs.EvoPmxPerm
 import PgProofs.EvoCyclePerm
 import PgProofs.EvoLaws
+import PgProofs.EvoFuel
 import PgModel.EvoSched
 import PgProofs.EvoNumP
 import PgProofs.EvoPropP
@@ -528,6 +529,23 @@ theorem C14_sched_pointwise (a b : Sched) (c : Int) (s : Nat) :
   refine ⟨rfl, rfl, ?_⟩
   intro x y hx hy
   simp [Sched.eval, hx, hy]
+
+/-! ## Fuel adequacy: the bounded recursions of the model never stop for lack of fuel -/
+
+/-- the driver passes `depth g + 2`; any fuel ≥ `depth g` suffices for `random_dna` … -/
+theorem C14_fuel_randomDna (g : GSpec) (fuel : Nat) (h : depth g ≤ fuel) (st : St) :
+    randomDna fuel g st ≠ .error .fuel := randomDna_NF fuel g h st
+
+/-- … for the point-wise merge (and the recombinators built on it) … -/
+theorem C14_fuel_pointwise (sample : Bool) (g : GSpec) (fuel : Nat) (h : depth g ≤ fuel)
+    (ps : List (Option DNA)) (pop : Pop) (st : St) :
+    mergeDna sample fuel g ps st ≠ .error .fuel ∧ recPointWise sample fuel g pop st ≠ .error .fuel :=
+  ⟨mergeDna_NF sample fuel g ps h st, recPointWise_NF sample fuel g h pop st⟩
+
+/-- … and the attempt loop of `_merge_multi_choice` ends within the `k + 10` steps it is given (each
+step accepts a subchoice or uses up one of the 8 attempts). -/
+theorem C14_fuel_merge_multi (k : Nat) (dist srt : Bool) (lists : List (Option (List Nat))) (st : St) :
+    mergeMulti k dist srt lists st ≠ .error .fuel := NF_mergeMulti k dist srt lists st
 
 /-- Determinism: an operation is a function of its inputs, its oracle stream and the uid counter
 (seeded operators: of seed and inputs) — in the model this is functionality of `eval`. -/
